@@ -240,7 +240,8 @@ Proof.
   destruct (d_first d) as [|s|b|]; cbn [bind]; try discriminate.
   - destruct (type_of_string s) as [t0|] eqn:Et; cbn [bind]; try discriminate.
     destruct (collect (parse_branch t0 tbl) (d_rest d)) as [rest| | |] eqn:Ec; cbn [bind app]; try discriminate.
-    destruct (chk t0 rest) as [[]| | |] eqn:Ek; cbn [bind]; try discriminate.
+    destruct rest as [|r0 rest']; [discriminate|].
+    destruct (chk t0 (r0 :: rest')) as [[]| | |] eqn:Ek; cbn [bind]; try discriminate.
     intros [= <- <-]. split; [assumption|]. left. eauto.
   - destruct (parse_branch I32 tbl b) as [x| | |] eqn:Eb; cbn [bind]; try discriminate.
     destruct (collect (parse_branch I32 tbl) (d_rest d)) as [rest| | |] eqn:Ec; cbn [bind app]; try discriminate.
